@@ -386,6 +386,13 @@ def oracle_case(case: dict, stats: dict | None = None):
                             cands = pre_timers + [_clock(prev)]
                             ok = any(c >= T * f for c in cands for f in fs)
                             seen = f"every scope/block timer {[float(c) for c in cands]} bases {sorted(fs)}"
+                        if not ok and p["completed"] and not p["started"] and not n["forced"]:
+                            # signature of the recorded finding: the node had been marked completed (by the command
+                            # of a previous Alarm invocation) while it was waiting for its threshold
+                            return fail("threshold-skipped-node-marked-completed-by-previous-invocation", k,
+                                        f"line {n['line']} ({n['name']}: {n['arg']}) threshold {n['threshold']} was waiting, "
+                                        f"got `completed` from the command of the previous invocation and started in tick {k}, "
+                                        f"but {seen}")
                         if not ok:
                             return fail("threshold-instruction-started-before-clock-reached-threshold", k,
                                         f"line {n['line']} ({n['name']}: {n['arg']}) threshold {n['threshold']} started in "
